@@ -90,6 +90,7 @@ type World struct {
 	TotalYields    int64
 	Unregistered   int64
 	rootSpawns     map[string]int
+	LocksLeftHeld int64 // locks still held by tasks when they ended
 	LockModelMiss  int64
 	EventsDisabled bool
 }
@@ -443,14 +444,15 @@ func (w *World) finish(t *Task, r any) {
 	t.Done = true
 	t.Parked = false
 	delete(w.byGid, t.gid)
-	// A crashed task can no longer release what it held; forget its locks so
-	// the wait-for graph stays meaningful.
-	for _, k := range t.Holding {
-		if ls := w.locks[k]; ls != nil && ls.writer == t {
-			ls.writer = nil
-		}
+	// A task that ends (or crashes) while it holds a lock leaves the real mutex locked:
+	// the model keeps it held too, so that whoever wants it next parks here, under the
+	// scheduler, and the run ends in a verdict (a hang with the lock's last owner in the
+	// wait-for graph) - forgetting the lock would let the waiter through to the real,
+	// for-ever-locked mutex and the run would end in the watchdog. Another goroutine may
+	// still release it (sync.Mutex allows that): Release clears it whoever calls.
+	if len(t.Holding) > 0 {
+		w.LocksLeftHeld += int64(len(t.Holding))
 	}
-	t.Holding = nil
 	w.mu.Unlock()
 }
 
